@@ -26,8 +26,11 @@ def select_patterns(body, kq):
 
 class SpecEnv:
     """Name resolution for one contract evaluation: explicit bindings first, then the state's locals."""
-    def __init__(self, st, binds=None, old=None, results=None, exec_=None):
+    def __init__(self, st, binds=None, old=None, results=None, exec_=None, parent=None):
         self.st, self.binds, self.old, self.results = st, dict(binds or {}), old, results or {}
+        if parent is not None:       # nested scopes (quantifiers, spec-function bodies) keep the old()-resolution of their parent
+            if hasattr(parent, 'binds_old'): self.binds_old = parent.binds_old
+            if getattr(parent, 'call_site', False): self.call_site = True
 
 class SpecMixin:
     # sev: evaluate spec expression to a value in the shared value domain
@@ -231,7 +234,7 @@ class SpecMixin:
         if name in ('forall', 'exists'):
             var = args[0][1]
             kq = fresh('q!' + var)
-            env2 = SpecEnv(env.st, dict(env.binds, **{var: kq}), env.old, env.results)
+            env2 = SpecEnv(env.st, dict(env.binds, **{var: kq}), env.old, env.results, parent=env)
             if hasattr(env, 'binds_old'): env2.binds_old = dict(env.binds_old, **{var: kq})
             if len(args) == 4:
                 lo, hi = self.sev(env, args[1]), self.sev(env, args[2])
@@ -260,7 +263,7 @@ class SpecMixin:
                 else:
                     raise Unsupported('binder %r' % (b,))
                 vs.append(q)
-            env2 = SpecEnv(env.st, binds, env.old, env.results)
+            env2 = SpecEnv(env.st, binds, env.old, env.results, parent=env)
             return z3.ForAll(vs, self.sev(env2, args[-1]))
         if name == 'seq':
             self.use_seq = True
